@@ -10,7 +10,9 @@ which is not fed by the internal node through an extra edge (its parameters alre
 
 `AExpr` adds the two constructors to the typed expressions of `Tfv/Model/Expr.lean`; `addExprA` is `addExpr`
 with the abstraction branch. Leaves are delegated to `addExpr`; the application case repeats the wiring code of
-`Graph.lean` (tied to it by the correspondence on abstraction-free expressions, `AExpr.ofT`).
+`Graph.lean` (tied to it by `C08a_embed`: on abstraction-free expressions `addExprA ∘ AExpr.ofT = addExpr`).
+Parameter numbers must not be reused within one expression (the harness numbers parameter objects by identity): the
+table is searched from the front, Python's dict would overwrite (`C08a_reused_parameter_number`).
 -/
 namespace Tfv
 
